@@ -632,6 +632,19 @@ def long_recipes():
         out.append({'cls': 'CNF', 'tag': 'long', 'steps': [['nv', 8]] + cl})
         out.append({'cls': 'OPB', 'tag': 'long', 'steps': [['nv', 8]] + cl})
         out.append({'cls': 'OPB', 'tag': 'long', 'steps': [['nv', 8]] + con})
+    # sizes around typical buffer/block sizes of a writer (1024, 4096): a
+    # writer that flushes in blocks must not repeat or drop rows
+    for m in (1023, 1024, 1025, 4097):
+        cl = []
+        con = []
+        for i in range(m):
+            lits = [(j + 1) if (i >> j) & 1 else -(j + 1) for j in range(13)]
+            lits = [l for j, l in enumerate(lits) if (i + j) % 4 != 0 or j == i % 13]
+            cl.append(['cl', lits])
+            con.append(['con', [[1 + (i + j) % 3, l] for j, l in enumerate(lits)],
+                        ('>=', '==')[i % 2], i % 5])
+        out.append({'cls': 'CNF', 'tag': 'long', 'steps': [['nv', 13]] + cl})
+        out.append({'cls': 'OPB', 'tag': 'long', 'steps': [['nv', 13]] + con})
     # named variables across page splits
     for cls in ('CNF', 'OPB'):
         steps = [['block', [6, 7], 'p_{{{},{}}}']]
@@ -789,8 +802,8 @@ def shards(tier, seed):
         out.append(('family-%02d' % k, 'run_families', {'k': k, 'K': K4}))
     out.append(('named-0', 'run_catalogue', {'what': 'named', 'k': 0, 'K': 2, 'seed': seed}))
     out.append(('named-1', 'run_catalogue', {'what': 'named', 'k': 1, 'K': 2, 'seed': seed}))
-    for k in range(4):
-        out.append(('long-%d' % k, 'run_catalogue', {'what': 'long', 'k': k, 'K': 4, 'seed': seed}))
+    for k in range(12):
+        out.append(('long-%02d' % k, 'run_catalogue', {'what': 'long', 'k': k, 'K': 12, 'seed': seed}))
     out.append(('misc', 'run_catalogue', {'what': 'misc', 'k': 0, 'K': 1, 'seed': seed}))
     out.append(('header', 'run_catalogue', {'what': 'header', 'k': 0, 'K': 1, 'seed': seed}))
     out.append(('format-CNF', 'run_formats', {'cls': 'CNF'}))
